@@ -13,12 +13,12 @@ from ..tables import rule
 from . import analysis
 
 rule("C12.a", "time homogeneity: whatever reaches c, l, u, b or a dispatch factor has time degree 0 (each rate meets exactly one "
-              "step length, each duration is converted to steps), and no two quantities of different degree are added", floor=30,
-     props=["C12", "C20"])
+              "step length, each duration is converted to steps), and no two quantities of different degree are added", floor=30)
+rule("C20.j", "order book: the cost of an order is capacity x price x covered step lengths x discount factor and its delivered "
+              "volume capacity x step length - time degree 0, discounted exactly once (the degree rules C12.a / C02.b on OrderBook)", floor=2)
 rule("C02.a", "time homogeneity of bounds, costs and take right-hand sides of storages, contracts and transports", floor=15,
      props=["C02", "C05"])
-rule("C02.b", "every term of the cost vector of storages, contracts, transports and order books carries exactly one discount factor", floor=6,
-     props=["C02", "C20"])
+rule("C02.b", "every term of the cost vector of storages, contracts, transports and order books carries exactly one discount factor", floor=6)
 rule("C12.c", "limits follow the actual step: a rate is multiplied by the step-length *vector* of the restricted grid, not by one "
               "nominal step", floor=4)
 rule("C19.d", "dt is (difference of successive time points) / (one main time unit), i.e. of time degree 1; the discount exponent is "
@@ -46,7 +46,7 @@ def _verdict(vals, want_t, want_d):
     return True, []
 
 
-@analysis("degrees", ["C12.a", "C02.a", "C02.b", "C12.c", "C19.d", "C08.e", "C12.e"])
+@analysis("degrees", ["C12.a", "C02.a", "C02.b", "C12.c", "C19.d", "C08.e", "C12.e", "C20.j"])
 def run(ctx):
     p = ctx.p
     summaries = {}
@@ -101,6 +101,8 @@ def run(ctx):
             detail = "%s has degree %s; it must be a plain volume / money amount per step (T^0): a rate that never met a step length, " \
                      "a duration that was not converted, or a step length applied twice" % (desc, show(vals))
             ctx.ob("C12.a", where_fn, cons, ok, detail, node=node, ok_detail=show(vals))
+            if cname == "OrderBook":
+                ctx.ob("C20.j", where_fn, cons, ok, detail, node=node, ok_detail=show(vals))
             if cname in C02_CLASSES or fn.qualname == "assets.define_restr":
                 ctx.ob("C02.a", where_fn, cons, ok, detail, node=node, ok_detail=show(vals))
             if fn.qualname == "assets.define_restr" and kind == "b":
@@ -127,10 +129,14 @@ def run(ctx):
                        "the exponent of the discount factor has degree %s: elapsed time must be converted from main time units to the "
                        "unit of the rate (days) before it is used as an exponent" % show1(y), node=where)
                 continue
-            ctx.ob("C12.a", where_fn, "mixed degrees: %s" % au.short(where, 70), False,
-                   "quantities of degree %s and %s are added / stored into one vector: one of them lacks (or has one too many) "
-                   "step length or discount factor" % (show1(x), show1(y)), node=where)
-            if cname in C02_CLASSES:
+            same_t = isinstance(x, tuple) and isinstance(y, tuple) and len(x) == 2 and len(y) == 2 and x[0] == y[0]
+            rids = (["C02.b"] if same_t else ["C12.a"]) + (["C20.j"] if cname == "OrderBook" else [])
+            for rid in rids:
+                # a conflict in the discount exponent only is a matter of discounting (C02.b), not of time units (C12.a)
+                ctx.ob(rid, where_fn, "mixed degrees: %s" % au.short(where, 70), False,
+                       "quantities of degree %s and %s are added / stored into one vector: one of them lacks (or has one too many) "
+                       "step length or discount factor" % (show1(x), show1(y)), node=where)
+            if cname in C02_CLASSES and not same_t:
                 ctx.ob("C02.a", where_fn, "mixed degrees: %s" % au.short(where, 70), False,
                        "quantities of degree %s and %s are added / stored into one vector" % (show1(x), show1(y)), node=where)
     ctx.require(n_sinks >= 25, "fewer than 25 degree sinks found (c / l / u / b / disp_factor)")
